@@ -101,7 +101,7 @@ def merge_json(case):
 IDS = ["b1", "b2", "b3", 7, "7", "", "b-10"]
 CONTESTS = ["c1", "c2", "c3", "AvB"]
 CANDS = ["A", "B", "C", "D"]
-TPOOLS = [None, None, None, 0, "", "p1", "p2", 1, 2, "0"]
+TPOOLS = [None, None, None, 0, "", "p1", "p2", 1, 2, "0", False]
 ODD_FLAGS = [None, 0, 1, "", "x"]
 
 
@@ -125,17 +125,34 @@ def gen_spec(rng, ids, bool_only, tpools):
             "tally_pool": rng.choice(tpools)}
 
 
-def build(spec):
-    CVR = CVRc()
-    return CVR(id=spec["id"], votes={k: dict(v) for k, v in spec["votes"].items()}, phantom=spec["phantom"],
-               pool=spec["pool"], tally_pool=spec["tally_pool"])
+def intended(spec):
+    """the values the caller passes (deep copy, taken BEFORE any implementation code runs): the model's input"""
+    return {"id": spec["id"], "votes": {k: dict(v) for k, v in spec["votes"].items()}, "phantom": spec["phantom"],
+            "pool": spec["pool"], "tally_pool": spec["tally_pool"]}
 
 
-def call_merge(objs, step=0):
+def build(spec, rng=None):
+    """a real CVR from the spec, through the constructor or (half of the time, when rng is given) CVR.from_dict with
+    default-valued keys sometimes left out.  spec['votes'] is passed as is (specs may share dict objects)."""
     CVR = CVRc()
-    case = {"in": [snap(c) for c in objs], "step": step, "first_obj": {}}
-    for c in objs:
-        case["first_obj"].setdefault(repr((type(c.id).__name__, c.id)), id(c))
+    if rng is not None and rng.random() < 0.5:
+        d = {"id": spec["id"], "votes": spec["votes"]}
+        for k, default in (("phantom", False), ("pool", False), ("tally_pool", None)):
+            if not (spec[k] is default and rng.random() < 0.5):
+                d[k] = spec[k]
+        return CVR.from_dict([d])[0]
+    return CVR(id=spec["id"], votes=spec["votes"], phantom=spec["phantom"], pool=spec["pool"],
+               tally_pool=spec["tally_pool"])
+
+
+def call_merge(objs, step=0, passed=None):
+    """passed[j] = intended(spec) for an object constructed from a spec for this call, None for an object that comes out
+    of an earlier call (then its current field values are the input).  Never read a fresh object's fields back."""
+    CVR = CVRc()
+    passed = passed or [None] * len(objs)
+    case = {"in": [p if p is not None else snap(c) for p, c in zip(passed, objs)], "step": step, "first_obj": {}}
+    for c, r in zip(objs, case["in"]):
+        case["first_obj"].setdefault(repr((type(r["id"]).__name__, r["id"])), id(c))
     try:
         out = CVR.merge_cvrs(objs)
     except Exception as e:  # noqa
@@ -156,21 +173,25 @@ def gen_merge_cases(rng, n):
         mode = rng.random()
         tpools = [None] if mode < 0.25 else ([None, rng.choice(TPOOLS[3:])] if mode < 0.6 else TPOOLS)
         k = rng.choice([1, 2, 2, 3, 4, 5, 7])
-        objs = [build(gen_spec(rng, ids, bool_only, tpools)) for _ in range(k)]
+        specs = [gen_spec(rng, ids, bool_only, tpools) for _ in range(k)]
         if k >= 2 and rng.random() < 0.25:      # two records share one votes dict, or one contest dict (as from_vote callers may)
-            a, b = rng.sample(objs, 2)
-            if a.votes and rng.random() < 0.5:
-                kk = rng.choice(list(a.votes))
-                b.votes = dict(b.votes)
-                b.votes[kk] = a.votes[kk]
+            a, b = rng.sample(specs, 2)
+            if a["votes"] and rng.random() < 0.5:
+                kk = rng.choice(list(a["votes"]))
+                b["votes"] = dict(b["votes"])
+                b["votes"][kk] = a["votes"][kk]
             else:
-                b.votes = a.votes
-        case, out = call_merge(objs)
+                b["votes"] = a["votes"]
+        passed = [intended(sp) for sp in specs]
+        objs = [build(sp, rng) for sp in specs]
+        case, out = call_merge(objs, 0, passed)
         cases.append(case)
         if rng.random() < 0.5:
-            more = [build(gen_spec(rng, ids, bool_only, tpools)) for _ in range(rng.randint(0, 3))]
-            nxt = (list(out) if out is not None else objs[:1]) + more
-            case2, out2 = call_merge(nxt, 1)
+            mspecs = [gen_spec(rng, ids, bool_only, tpools) for _ in range(rng.randint(0, 3))]
+            mpassed = [intended(sp) for sp in mspecs]
+            more = [build(sp, rng) for sp in mspecs]
+            old = list(out) if out is not None else objs[:1]
+            case2, out2 = call_merge(old + more, 1, [None] * len(old) + mpassed)
             cases.append(case2)
             case3, _ = call_merge(objs, 2)          # the original objects (the first of each id was updated in place)
             cases.append(case3)
@@ -354,8 +375,9 @@ def run(ctx, res):
     rng = ctx.rng
     stats = {}
     cases = []
-    for specs in flag_combinations():
-        case, _ = call_merge([build(s) for s in specs])
+    for j, specs in enumerate(flag_combinations()):
+        passed = [intended(sp) for sp in specs]
+        case, _ = call_merge([build(sp, rng if j % 2 else None) for sp in specs], 0, passed)
         cases.append(case)
     stats["flag_combinations"] = len(cases)
     cases += gen_merge_cases(rng, ctx.n(1400, 20000))
@@ -403,10 +425,11 @@ def run(ctx, res):
     stats["raire_file_cases"] = len(fcases)
     stats["raire_errors"] = sum(c["out"][0] == "err" for c in rcases + fcases)
     stats["raire_malformed_or_odd_skip"] = sum(not c["wellformed"] or c["skip"] != int(c["rows"][0][0]) for c in rcases + fcases)
-    res.rule = ("merge_cvrs: every (phantom, pool, tally_pool in None/0/''/'p1'/'p2') combination for two records of one id and "
+    res.rule = ("the model and the oracle get the values PASSED to the constructor / CVR.from_dict (half each, default keys "
+                "sometimes omitted), never values read back from a fresh object; merge_cvrs: every (phantom, pool, tally_pool in None/0/''/'p1'/'p2') combination for two records of one id and "
                 "all tally-pool triples for three; generated lists of 1..7 real CVR objects over 1..3 ids (str/int/'' ids), votes over "
                 "4 contests x 4 candidates incl. empty votes / empty contests / later record omitting candidates, bool flags (80%) or "
-                "None/0/1/''/'x', tally pools incl. None, 0, '', '0', conflicting values; a quarter with two records sharing a votes / contest dict object; half of the lists are followed by a call on "
+                "None/0/1/''/'x', tally pools incl. None, 0, '', '0', False, conflicting values; a quarter with two records sharing a votes / contest dict object; half of the lists are followed by a call on "
                 "the merged output plus new records and a call on the original objects again. RAIRE: 1..3 contests, 0..8 ballot rows, "
                 "repeated ballot ids, a contest repeated for one id, rows with no candidates, 25% malformed (short / empty row, repeated "
                 "candidate, declared header count smaller / larger than the contest lines); one third through a csv file. "
